@@ -298,8 +298,8 @@ func (e *env) runScript(dir string, transports []string, steps [][]string) {
 // ---------------------------------------------------------------------------
 // offline buffer (client emitter)
 
-func (e *env) runOffline(natt int, connectFirst bool, transports []string) {
-	id := e.begin("offline", "natt", natt, "connectFirst", connectFirst)
+func (e *env) runOffline(order string, natt int, connectFirst bool, transports []string) {
+	id := e.begin("offline", "order", order, "natt", natt, "connectFirst", connectFirst)
 	w, err := newWorld("c2s", transports, false)
 	if err != nil {
 		e.res.Inconclusive("rig", err.Error(), id)
@@ -309,13 +309,22 @@ func (e *env) runOffline(natt int, connectFirst bool, transports []string) {
 	defer w.close()
 	T := 40 * time.Millisecond
 	if connectFirst {
-		T = 1500 * time.Millisecond
+		T = 600 * time.Millisecond
 	}
-	// A: time-out, natt attachments; B: ack without time-out, 1 attachment; C: plain event
-	w.emit("c2s", 1, natt, T)
-	w.emit("c2s", 2, 1, 0)
-	vtrace.Emit("emit.start", "k", 3)
-	w.csock.Emit("plain", 3)
+	t0 := time.Now()
+	// A: time-out, natt attachments; B: ack without time-out, 1 attachment; C: plain event - in the given order
+	hasB := strings.Contains(order, "B")
+	for _, c := range order {
+		switch c {
+		case 'A':
+			w.emit("c2s", 1, natt, T)
+		case 'B':
+			w.emit("c2s", 2, 1, 0)
+		case 'C':
+			vtrace.Emit("emit.start", "k", 3)
+			w.csock.Emit("plain", 3)
+		}
+	}
 	want := map[int]string{}
 	if !connectFirst {
 		rig.WaitUntil(T+2*time.Second, func() bool { return w.ncb(1) > 0 })
@@ -332,20 +341,26 @@ func (e *env) runOffline(natt int, connectFirst bool, transports []string) {
 		e.res.Violation("ack-socket-unusable", "Connect blocked after an offline ack time-out", id, nil)
 	}
 	// the peer acks whatever arrives
-	rig.WaitUntil(3*time.Second, func() bool { w.mu.Lock(); defer w.mu.Unlock(); return w.ackFn[2] != nil })
+	rig.WaitUntil(3*time.Second, func() bool {
+		w.mu.Lock()
+		defer w.mu.Unlock()
+		return (!hasB || w.ackFn[2] != nil) && (!connectFirst || w.ackFn[1] != nil)
+	})
 	w.mu.Lock()
 	for _, f := range w.ackFn {
 		go f()
 	}
 	w.mu.Unlock()
-	rig.WaitUntil(3*time.Second, func() bool { return w.ncb(2) > 0 && (!connectFirst || w.ncb(1) > 0) })
-	want[2] = "reply"
+	rig.WaitUntil(3*time.Second, func() bool { return (!hasB || w.ncb(2) > 0) && (!connectFirst || w.ncb(1) > 0) })
+	if hasB {
+		want[2] = "reply"
+	}
 	if connectFirst {
 		want[1] = "reply"
 	}
 	// the socket must remain usable: a probe emit with ack gets its reply
 	done := make(chan struct{})
-	go func() { w.emit("c2s", 4, 0, 2*time.Second); close(done) }()
+	go func() { w.emit("c2s", 4, 0, 0); close(done) }()
 	select {
 	case <-done:
 		rig.WaitUntil(2*time.Second, func() bool { w.mu.Lock(); defer w.mu.Unlock(); return w.ackFn[4] != nil })
@@ -360,14 +375,17 @@ func (e *env) runOffline(natt int, connectFirst bool, transports []string) {
 	case <-time.After(3 * time.Second):
 		e.res.Violation("ack-socket-unusable", "a later Emit blocked (mutex left held after the ack time-out)", id, nil)
 	}
+	if d := T + 30*time.Millisecond - time.Since(t0); d > 0 {
+		time.Sleep(d) // let this scenario's timer fire inside the scenario
+	}
 	time.Sleep(20 * time.Millisecond)
 	vtrace.Emit("quiesce")
-	e.judge(id, w, want, map[string]any{"natt": natt, "connectFirst": connectFirst})
+	e.judge(id, w, want, map[string]any{"order": order, "natt": natt, "connectFirst": connectFirst})
 	w.mu.Lock()
 	got := fmt.Sprint(w.got)
 	w.mu.Unlock()
 	vtrace.Emit("note", "peerGot", got)
-	e.res.Case(fmt.Sprint("offline", natt, connectFirst), true)
+	e.res.Case(fmt.Sprint("offline", order, natt, connectFirst), true)
 	e.end()
 }
 
@@ -497,10 +515,14 @@ func TestC03(t *testing.T) {
 		e.runScript(dir, ws, sc)
 	}
 	res.Count("scripts", len(scripts))
-	for natt := 0; natt <= 3; natt++ {
-		e.runOffline(natt, false, ws)
-		e.runOffline(natt, true, ws)
+	orders := []string{"A", "AB", "BA", "AC", "CA", "ABC", "ACB", "BAC", "BCA", "CAB", "CBA"}
+	for _, o := range orders {
+		for _, natt := range []int{0, 2} {
+			e.runOffline(o, natt, false, ws)
+		}
+		e.runOffline(o, 1, true, ws)
 	}
+	e.runOffline("ABC", 3, false, ws)
 	rng := rand.New(rand.NewSource(vres.Seed()))
 	for i := 0; i < vres.Pick(2, 12); i++ {
 		e.runMany("c2s", rng, 40, ws)
@@ -509,8 +531,8 @@ func TestC03(t *testing.T) {
 	e.runMidflight(ws)
 	if vres.Tier() == "thorough" {
 		e.runMidflight([]string{"polling"})
-		for natt := 0; natt <= 3; natt++ {
-			e.runOffline(natt, false, []string{"polling"})
+		for _, o := range orders {
+			e.runOffline(o, 3, false, []string{"polling"})
 		}
 	}
 	res.Scenarios = e.scen
